@@ -160,4 +160,17 @@ theorem SoloOK_of_holdsS {p : Pc} {s : St} (hS : p.holdsS = true) (hk : SoloOK p
   | ldHold thr => simpa [SoloOK] using hk
   | _ => simp [Pc.holdsS] at hS
 
+theorem Reachable.step {spur : Bool} {s s' : St} {t : Tid} {e : Ev} (h : Reachable spur s) (hs : step s t e = some s') :
+    Reachable spur s' := by
+  obtain ⟨es, hes⟩ := h
+  refine ⟨es ++ [(t, e)], ?_⟩
+  unfold run at hes ⊢
+  rw [runFrom_append, hes]
+  simp [runFrom_cons, hs]
+
+theorem Reachable.spur_eq {spur : Bool} {s : St} (h : Reachable spur s) : s.spur = spur := by
+  obtain ⟨es, hes⟩ := h
+  exact runFrom_rel (R := fun x y => y.spur = x.spur) (fun _ => rfl) (fun _ _ _ h1 h2 => by rw [h2, h1])
+    (fun x t e y hxy => (step_sound hxy).spur_same) hes
+
 end ConcVerif.Deferred
